@@ -29,6 +29,7 @@ import (
 	"strings"
 	"syscall"
 	"testing"
+	"time"
 
 	"pgregory.net/rapid"
 
@@ -501,9 +502,22 @@ func (s *c12Sig) brief() string {
 
 func c12Observe(dir string) (*c12Sig, error) {
 	ctx := context.Background()
-	ss, err := search.NewDirectorySearcher(dir)
-	if err != nil {
-		return nil, fmt.Errorf("NewDirectorySearcher: %w", err)
+	// NewDirectorySearcher only fails for reasons of the environment (it needs
+	// an inotify instance; the machine-wide limit is small and shared with
+	// other test processes): retry, then give up as "cannot check" rather
+	// than blaming the code under test.
+	var ss zoekt.Streamer
+	var err error
+	for try := 0; ; try++ {
+		ss, err = search.NewDirectorySearcher(dir)
+		if err == nil {
+			break
+		}
+		if try == 20 {
+			fmt.Fprintf(os.Stderr, "cannot check: search.NewDirectorySearcher(%s): %v\n", dir, err)
+			os.Exit(3)
+		}
+		time.Sleep(250 * time.Millisecond)
 	}
 	defer ss.Close()
 	sig := &c12Sig{}
